@@ -27,7 +27,7 @@ CHILD = os.path.join(core.HERE, "vf", "c03_child.py")
 
 
 def cases(tier, seed):
-    n, seeds, orders = (12, 3, 3) if tier == "quick" else (150, 8, 4)
+    n, seeds, orders = (12, 3, 4) if tier == "quick" else (150, 8, 5)
     for i in range(n):
         yield {"seed": seed, "idx": i, "hashseeds": seeds, "orders": orders}
 
@@ -46,7 +46,7 @@ def spawn(src, pkg, store, mode, order, hashseed, trace=None):
     return json.loads(line[len("VFRESULT "):])
 
 
-def run_case(case):
+def build_program(case):
     out = {"viol": [], "nontrivial": [], "obs": collections.Counter(), "sets": {"features": set()}}
     rng = core.rng_for(case["seed"], ID, case["idx"])
     # (two of three programs carry two helpers made by one factory: one code object, different defaults)
@@ -73,6 +73,36 @@ def run_case(case):
         users = [u for u in range(i) if nodes[u]["kind"] == "memento" and nodes[u]["mod"] == nodes[i]["mod"]]
         if users and not any(c["t"] == i and c["form"] == "bare" for u in users for c in nodes[u]["calls"]):
             nodes[rng.choice(users)]["calls"].append({"t": i, "form": "bare"})
+    # ... and the memento function that is registered LAST in the mementos-first order (the lowest one of the module
+    # imported last: no later registration makes anybody look at the names again) uses such a helper of its module
+    last_mod = "b" if any(nd["mod"] == "b" and nd["kind"] == "memento" for nd in nodes) else "a"
+    lasts = [u for u, nd in enumerate(nodes) if nd["mod"] == last_mod and nd["kind"] == "memento"]
+    helpers = [i for i in plain if nodes[i]["mod"] == last_mod and lasts and i > lasts[0]]
+    if lasts and helpers:
+        i = next((h for h in helpers if nodes[h]["name"] in progs.BUILTIN_NAMES), helpers[0])
+        if nodes[i]["name"] not in progs.BUILTIN_NAMES:
+            free = [b for b in progs.BUILTIN_NAMES if not any(nd["name"] == b for nd in nodes)]
+            if free:
+                old = nodes[i]["name"]
+                nodes[i]["name"] = free[0]
+                for nd in nodes:
+                    if nd["nested"] and nd["nested"].get("param") == old:
+                        nd["nested"]["param"] = free[0]
+        if nodes[i]["name"] in progs.BUILTIN_NAMES and not any(c["t"] == i and c["form"] == "bare" for c in nodes[lasts[0]]["calls"]):
+            nodes[lasts[0]]["calls"].append({"t": i, "form": "bare"})
+    if lasts and case["idx"] % 2 == 0:
+        # aimed: that function's ONLY helper is a new plain function named like a builtin (nothing else it names is
+        # defined after it in the mementos-first order, so nothing else makes the process look at late definitions)
+        free = [b for b in progs.BUILTIN_NAMES if not any(nd["name"] == b for nd in nodes)]
+        if free:
+            nodes.append({"name": free[0], "mod": last_mod, "kind": "plain", "version": None, "params": [["x", None]], "kwonly": [],
+                          "const": rng.randint(1, 9), "tconst": None, "sconst": None, "op": "+", "nested": None, "reads": [],
+                          "calls": [], "wrap_param": None, "swap": False})
+            u = nodes[lasts[0]]
+            u["calls"] = [c for c in u["calls"] if nodes[c["t"]]["kind"] == "memento" and c["form"] in ("bare", "attr")]
+            u["calls"].append({"t": len(nodes) - 1, "form": "bare"})
+            u["nested"] = None
+            u["only_builtin_named_helper"] = True
     # a memento function that reaches a plain helper is the default value of a parameter of another memento function of
     # its module (the default is evaluated when that function is defined: wherever the helper's definition stands)
     cands = [(u, t) for u in range(len(nodes)) for t in range(u + 1, len(nodes))
@@ -87,6 +117,7 @@ def run_case(case):
     # own module that is bound only at the end of the module (after the function was registered)
     cands = [(u, t) for u in range(len(nodes)) for t in range(u + 1, len(nodes))
              if nodes[u]["kind"] == "memento" and nodes[u]["mod"] == "b" and nodes[t]["mod"] == "b" and nodes[t]["kind"] in ("plain", "memento")]
+    cands = [(u, t) for u, t in cands if not nodes[u].get("only_builtin_named_helper")]
     if cands and case["idx"] % 3 != 2:
         u, t = rng.choice(cands)
         nodes[u]["late_glob"] = "lg_%d" % u
@@ -96,6 +127,7 @@ def run_case(case):
     cands = [(u, t) for u in range(len(nodes)) for t in range(u + 1, len(nodes))
              if nodes[u]["kind"] == "memento" and nodes[t]["kind"] == "memento" and nodes[u]["mod"] == nodes[t]["mod"]
              and nodes[t]["mod"] in ("a", "b") and nodes[t]["version"] is None]
+    cands = [(u, t) for u, t in cands if not nodes[u].get("only_builtin_named_helper")]
     if cands and case["idx"] % 3 == 2:
         u, t = rng.choice(cands)
         name = "cl_%s" % nodes[t]["name"]
@@ -107,6 +139,11 @@ def run_case(case):
             nodes[u]["calls"].append({"t": t, "form": "mod_fl"})
         out["obs"]["programs_with_a_module_level_modifier_clone"] += 1
     out["sets"]["features"] |= progs.features(prog)
+    return prog, nodes, lasts, rng, out
+
+
+def run_case(case):
+    prog, nodes, lasts, rng, out = build_program(case)
     fns = [[nd["mod"], nd["name"]] for nd in prog["nodes"] if nd["kind"] == "memento"]
 
     def fail(sig, msg):
@@ -121,6 +158,9 @@ def run_case(case):
             if o == 1:
                 # memento functions first, helpers afterwards: every helper is still undefined when its users register
                 order.sort(key=lambda i: (prog["nodes"][i]["kind"] != "memento", -i))
+            elif o == 2:
+                # helpers first, memento functions afterwards: everything a function names is defined when it registers
+                order.sort(key=lambda i: (prog["nodes"][i]["kind"] == "memento", -i))
             elif o:
                 rng.shuffle(order)
             src = sc.path("src%d" % o)
@@ -132,6 +172,11 @@ def run_case(case):
                 q = list(fns)
                 if k:
                     rng.shuffle(q)
+                if o == 1 and lasts and [nodes[lasts[0]]["mod"], nodes[lasts[0]]["name"]] in q:
+                    # (mementos-first order: the function registered last is asked first - nobody's query before it makes
+                    # the process look at late definitions on its behalf)
+                    fq = [nodes[lasts[0]]["mod"], nodes[lasts[0]]["name"]]
+                    q = [fq] + [x for x in q if x != fq]
                 k += 1
                 vm = spawn(src, prog["pkg"], sc.path("vstore%d" % k), "versions", q, hs if hs else 0)
                 out["obs"]["interpreters_run"] += 1
